@@ -118,7 +118,7 @@ def maxvol_rect(A, e=1.1, dr_min=0, dr_max=None, e0=1.05, k0=10):
     F = S * np.linalg.norm(B, axis=1)**2
 
     for k in range(r, r_max):
-        i = np.argmax(F)
+        i = np.argmax(np.where(S > 0, F, -1.))
 
         if k >= r_min and F[i] <= e*e:
             break
